@@ -96,6 +96,15 @@ func MakeRemoteSource(sourceType string, u *url.URL, subPath string) (RemoteSour
 		return RemoteSource{}, fmt.Errorf("invalid sub-path: %w", err)
 	}
 
+	// The same rules apply as for a parsed address: no credentials in the URL
+	// and a query string that can actually be interpreted.
+	if u.User != nil {
+		return RemoteSource{}, fmt.Errorf("must not use username or password in URL portion")
+	}
+	if _, err := url.ParseQuery(u.RawQuery); err != nil {
+		return RemoteSource{}, fmt.Errorf("invalid URL query string syntax in %q: %w", u.String(), err)
+	}
+
 	copyU := *u // shallow copy so we can safely modify
 
 	return makeRemoteSource(sourceType, &copyU, subPath)
